@@ -834,6 +834,25 @@ func (si *setInterp) contribution(l *setLoop, b *ssa.BasicBlock, e ssa.Value, fr
 				}
 				continue
 			}
+			if hc, isCall := c.V.(*ssa.Call); isCall {
+				// a boolean helper that searches a list linearly: `x in set(list)`
+				if li, ki, ok := linearSearch(flow.Callee(hc)); ok && li < len(hc.Call.Args) && ki < len(hc.Call.Args) {
+					kp, ok := si.proj(hc.Call.Args[ki], l)
+					if !ok || kp != pj {
+						return nil, "a membership test on the way to the insertion looks up something other than the inserted element"
+					}
+					m := si.eval(hc.Call.Args[li], fr)
+					if !m.known() {
+						return nil, m.why
+					}
+					if c.Pol {
+						set = sxI(set, m.set)
+					} else {
+						set = sxD(set, m.set)
+					}
+					continue
+				}
+			}
 			ex, ok := c.V.(*ssa.Extract)
 			if !ok || ex.Index != 1 {
 				return nil, fmt.Sprintf("a condition on the way to the insertion is not a membership test (%s)", c.V.String())
@@ -1177,4 +1196,93 @@ func (si *setInterp) frameOf(fn, root *ssa.Function, depth int) (*sframe, bool) 
 		return nil, false
 	}
 	return si.frame(parent, site, fn), true
+}
+
+
+// linearSearch recognises `func(list []string, x string) bool` (parameters in any order, also as a method) that returns
+// true exactly when some element of list equals x: one loop over all indices of the list, `if list[i] == x { return true }`,
+// false after the loop.  Returns the parameter indices of the list and of the key.
+func linearSearch(h *ssa.Function) (listIdx, keyIdx int, ok bool) {
+	if h == nil || len(h.Blocks) == 0 || h.Signature.Results().Len() != 1 {
+		return 0, 0, false
+	}
+	if bt, isB := h.Signature.Results().At(0).Type().Underlying().(*types.Basic); !isB || bt.Kind() != types.Bool {
+		return 0, 0, false
+	}
+	listIdx, keyIdx = -1, -1
+	for k, p := range h.Params {
+		if isStringSlice(p.Type()) {
+			listIdx = k
+		} else if bt, isB := p.Type().Underlying().(*types.Basic); isB && bt.Info()&types.IsString != 0 {
+			keyIdx = k
+		}
+	}
+	if listIdx < 0 || keyIdx < 0 || len(h.Params) != 2 {
+		return 0, 0, false
+	}
+	loops := flow.CountedLoops(h)
+	if len(loops) != 1 || loops[0].Over != ssa.Value(h.Params[listIdx]) {
+		return 0, 0, false
+	}
+	l := loops[0]
+	// no effects
+	for _, b := range h.Blocks {
+		for _, in := range b.Instrs {
+			switch x := in.(type) {
+			case *ssa.Store, *ssa.MapUpdate, *ssa.Go, *ssa.Defer, *ssa.Send:
+				return 0, 0, false
+			case *ssa.Call:
+				if !isLenCall(x) {
+					return 0, 0, false
+				}
+			}
+		}
+	}
+	nTrue, nFalse := 0, 0
+	for _, ret := range flow.Returns(h) {
+		k, isK := flow.RetResults(ret)[0].(*ssa.Const)
+		if !isK || k.Value == nil {
+			return 0, 0, false
+		}
+		if constant.BoolVal(k.Value) {
+			// leaves the loop body directly under `list[i] == x`
+			if !flow.G(h).Dominates(l.Body, ret.Block()) {
+				return 0, 0, false
+			}
+			good := false
+			conds := flow.DomConds(ret.Block())
+			inLoop := 0
+			for _, cd := range conds {
+				if cd.At == nil || !l.Contains(cd.At.Block()) || cd.At.Block() == l.Header {
+					continue
+				}
+				inLoop++
+				c := flow.Norm(cd)
+				bo, isBo := c.V.(*ssa.BinOp)
+				if !isBo || !((bo.Op == token.EQL && c.Pol) || (bo.Op == token.NEQ && !c.Pol)) {
+					continue
+				}
+				for _, pair := range [][2]ssa.Value{{bo.X, bo.Y}, {bo.Y, bo.X}} {
+					if f, isEl := l.ElementOf(pair[0]); isEl && f == "" && pair[1] == ssa.Value(h.Params[keyIdx]) {
+						good = true
+					}
+				}
+			}
+			if !good || inLoop != 1 {
+				return 0, 0, false
+			}
+			nTrue++
+		} else {
+			// after the loop has visited every element
+			if flow.G(h).Dominates(l.Body, ret.Block()) || !flow.G(h).Dominates(l.Exit, ret.Block()) {
+				return 0, 0, false
+			}
+			nFalse++
+		}
+	}
+	// the loop body has no other exit
+	if nTrue != 1 || nFalse != 1 {
+		return 0, 0, false
+	}
+	return listIdx, keyIdx, true
 }
